@@ -193,6 +193,35 @@ fn labels_to_name(l: &Labels) -> Name {
     n
 }
 
+/// Streaming FNV-1a 64 (deterministic across runs).
+pub struct Fnv(pub u64);
+impl Fnv {
+    pub fn new() -> Fnv {
+        Fnv(0xcbf29ce484222325)
+    }
+    pub fn write(&mut self, b: &[u8]) {
+        for x in b {
+            self.0 ^= *x as u64;
+            self.0 = self.0.wrapping_mul(0x100000001b3);
+        }
+    }
+}
+impl std::hash::Hasher for Fnv {
+    fn finish(&self) -> u64 {
+        self.0
+    }
+    fn write(&mut self, bytes: &[u8]) {
+        Fnv::write(self, bytes)
+    }
+}
+
+/// Deterministic 64-bit digest of any `Hash` value.
+pub fn digest<T: std::hash::Hash>(x: &T) -> u64 {
+    let mut h = Fnv::new();
+    x.hash(&mut h);
+    h.0
+}
+
 // ------------------------------------------------------------------------------------------
 // observable zone state
 
@@ -234,21 +263,39 @@ impl Snap {
     }
     /// Canonical state key: content + empty keys + every SOA serial relative to `initial_serial`.
     pub fn key(&self, initial_serial: u32) -> u64 {
-        let mut s = String::new();
+        let mut h = Fnv::new();
         for r in &self.rrs {
-            let mut r = r.clone();
+            for l in &r.name {
+                h.write(&[l.len() as u8]);
+                h.write(l);
+            }
+            h.write(&[0]);
+            h.write(&r.rtype.to_be_bytes());
+            h.write(&r.class.to_be_bytes());
+            h.write(&r.ttl.to_be_bytes());
             if r.rtype == ru::T_SOA {
                 if let Some(ser) = ru::soa_serial(&r.rdata) {
-                    s.push_str(&format!("d{};", ser.wrapping_sub(initial_serial)));
-                    r.rdata = ru::soa_without_serial(&r.rdata);
+                    h.write(b"soa");
+                    h.write(&ser.wrapping_sub(initial_serial).to_be_bytes());
+                    let rd = ru::soa_without_serial(&r.rdata);
+                    h.write(&(rd.len() as u16).to_be_bytes());
+                    h.write(&rd);
+                    continue;
                 }
             }
-            s.push_str(&format!("{}/{}/{}/{}/{};", name_str(&r.name), r.rtype, r.class, r.ttl, vcore::hex::enc(&r.rdata)));
+            h.write(&(r.rdata.len() as u16).to_be_bytes());
+            h.write(&r.rdata);
         }
+        h.write(b"|E|");
         for (n, t) in &self.empty_keys {
-            s.push_str(&format!("E{}/{};", name_str(n), t));
+            for l in n {
+                h.write(&[l.len() as u8]);
+                h.write(l);
+            }
+            h.write(&[0]);
+            h.write(&t.to_be_bytes());
         }
-        vcore::fnv_str(&s)
+        h.0
     }
     pub fn to_json(&self) -> Value {
         json!({
